@@ -96,6 +96,7 @@ func AppendSnapshot(b []byte, s *slip.Scope) []byte {
 	b = appendSnapshotPackages(b, s)
 	b = appendSnapshotConstants(b, s)
 	b = appendSnapshotFlavors(b, s)
+	b = appendSnapshotClasses(b, s)
 	b = appendSnapshotVars(b, s)
 	b = appendSnapshotFunctions(b, s)
 
@@ -216,9 +217,46 @@ func appendSnapshotFlavors(b []byte, s *slip.Scope) []byte {
 			fa = append(fa, f)
 		}
 	}
-	for _, f := range inheritOrder(fa) {
+	for _, c := range inheritOrder(fa) {
+		f := c.(*flavors.Flavor)
 		b = append(b, '\n')
 		b = pp.Append(b, s, f.LoadForm())
+		// The methods defined with defmethod or defwhopper follow the flavor.
+		for _, name := range f.MethodNames() {
+			for _, daemon := range []string{":whopper", ":before", ":primary", ":after"} {
+				dml := f.DefMethodList(string(name.(slip.Symbol)), daemon, false)
+				if dml == nil {
+					continue
+				}
+				if daemon == ":primary" {
+					// As when typed in, (flavor :method) for a primary method.
+					spec := dml[1].(slip.List)
+					dml[1] = slip.List{spec[0], spec[2]}
+				}
+				b = pp.Append(b, s, dml)
+			}
+		}
+	}
+	return b
+}
+
+func appendSnapshotClasses(b []byte, s *slip.Scope) []byte {
+	// Only the classes defined with defclass or define-condition are
+	// included, not the flavors and not the built in classes.
+	var ca []slip.Class
+	for _, p := range slip.AllPackages() {
+		if isCorePackage(p) {
+			continue
+		}
+		p.EachClass(func(c slip.Class) {
+			if fc, ok := c.(interface{ IsFinal() bool }); ok && c.Pkg() == p && !fc.IsFinal() {
+				ca = append(ca, c)
+			}
+		})
+	}
+	for _, c := range inheritOrder(ca) {
+		b = append(b, '\n')
+		b = pp.Append(b, s, c.LoadForm())
 	}
 	return b
 }
